@@ -5,6 +5,7 @@ Driver.Verdict — line protocol over Model.Verdict / Spec.Verdict for tools/pro
   sll <cache01> <proc>                       -> <res> | raise                     solve_low_level
   e2e <cache01> <hit01> <query>              -> <res> | raise                     solve_end_to_end
   gso <cache01> <shutdown01> <hit01> <query> -> <res>                             _get_solver_output
+  setup <cache01> <procs `;`-separated>      -> ok | fail                          the solver filter over setUp() paths
   cls <obs>                                  -> potential|confirmStuck|normal|ignored
   chain <sat> <unsat> <unknown> <err> <stuck> <normal>  -> <code> <NAME>           the verdict if-chain on counts
   test <cfg> <paths> <sched>                 -> ok <code> <NAME> raised=. shutdown=. normal=. stuck=. pc=. outs=<kinds> ref=<NAME> sched=<events>
@@ -214,6 +215,10 @@ def handle (line : String) : String :=
     match parseB c, parseB sd, parseB h, parseQueryFields (q.splitOn ":") with
     | some c, some sd, some h, some q => showRes (getSolverOutput c sd h q)
     | _, _, _, _ => "bad parse"
+  | ["setup", c, ps] =>
+    match parseB c, (if ps = "-" then some [] else (ps.splitOn ";").mapM parseProc) with
+    | some c, some ps => if setupOk c ps then "ok" else "fail"
+    | _, _ => "bad parse"
   | ["cls", o] =>
     match parseObs o with
     | some o => (match classify o with
